@@ -17,8 +17,12 @@ property text; they are listed in a comment only.
 """
 BBOX = ("bounding_box_to_bounding_box", "bounding_box_mirrored_to_bounding_box")
 MAX_N = 200
-TARGETS = ["MenpoModel.Generated.C15Labellers", "MenpoModel.GenProps.C15"]
+TARGETS = ["MenpoModel.Generated.C15Labellers", "MenpoModel.Generated.C15Resolution", "MenpoModel.Generated.C15Scan",
+           "MenpoModel.GenProps.C15"]
 GRAPH_KIND = "LabelledPointUndirectedGraph"
+CLS = {"LabelledPointUndirectedGraph": "lgraph", "TriMesh": "trimesh", "PointUndirectedGraph": "pugraph",
+       "PointCloud": "pointcloud"}
+KINDS = ("ndarray", "pointcloud", "lgraph", "group")
 
 
 def live_labellers():
@@ -101,6 +105,126 @@ def tables():
     return idx, bbox
 
 
+
+def cls_of(obj):
+    return CLS.get(type(obj).__name__, "other")
+
+
+def digest(obj):
+    """bit-level digest of an array / point cloud / graph / mesh / labelled graph"""
+    import numpy as np
+    if isinstance(obj, np.ndarray):
+        return repr((obj.tobytes(), obj.shape, str(obj.dtype)))
+    d = [np.asarray(obj.points).tobytes(), np.asarray(obj.points).shape]
+    if hasattr(obj, "adjacency_matrix"):
+        a = obj.adjacency_matrix
+        d += [a.toarray().tobytes() if hasattr(a, "toarray") else np.asarray(a).tobytes()]
+    if hasattr(obj, "trilist"):
+        d += [np.asarray(obj.trilist).tobytes()]
+    if hasattr(obj, "_labels_to_masks"):
+        d += [(str(l), np.asarray(m).tobytes()) for l, m in obj._labels_to_masks.items()]
+    return repr(d)
+
+
+def decode_ind(pts, n):
+    """which probe point each row of `pts` is (n = not a probe point)"""
+    ind = []
+    for p in pts:
+        i = p[0]
+        if float(i).is_integer() and 0 <= i < n and p[1] == i * i:
+            ind.append(int(i))
+        else:
+            ind.append(n)
+    return ind
+
+
+def probe_input(kind, m):
+    """(callable running the labeller on a fresh probe input of `m` points of this kind -> (result, mapping or None),
+    the input object whose digest must not change)"""
+    import numpy as np
+    from collections import OrderedDict
+    from menpo.shape import PointCloud, LabelledPointUndirectedGraph
+    from menpo.landmark import labeller
+    pts = probe_cloud(m)
+    if kind == "ndarray":
+        return (lambda f, rm: f(pts, return_mapping=True) if rm else (f(pts), None)), pts, None
+    if kind == "pointcloud":
+        x = PointCloud(pts)
+        return (lambda f, rm: f(x, return_mapping=True) if rm else (f(x), None)), x, None
+    if kind == "lgraph":
+        edges = np.array([[0, 1]] if m > 1 else [], dtype=int).reshape(-1, 2)
+        x = LabelledPointUndirectedGraph.init_from_edges(pts, edges, OrderedDict([("all", np.ones(m, dtype=bool))]))
+        return (lambda f, rm: f(x, return_mapping=True) if rm else (f(x), None)), x, None
+    holder = PointCloud(np.zeros((1, 2)))
+    holder.landmarks["src"] = PointCloud(pts)
+
+    def run(f, rm):
+        r = labeller(holder, "src", f)
+        assert r is holder
+        new = [k for k in holder.landmarks.group_labels if k != "src"]
+        if len(new) != 1:
+            raise RuntimeError("labeller() wrote the keys %r" % (new,))
+        return holder.landmarks[new[0]], None
+    return run, holder.landmarks["src"], holder
+
+
+def resolution_of(name, f, t):
+    """what the labeller does per input kind: one dict per kind plus the distinct mappings / index lists / edge sets"""
+    from menpo.landmark import LabellingError
+    n = t["n"]
+    mappings, inds, edge_sets, rows = [], [], [], []
+    wrote = "?"
+
+    def intern(lst, v):
+        if v not in lst:
+            lst.append(v)
+        return lst.index(v)
+
+    for kind in KINDS:
+        row = {"kind": kind}
+        for key, m in (("small", n - 1), ("large", n + 1)):
+            try:
+                run, _, _ = probe_input(kind, m)
+                run(f, False)
+                row[key] = "accepted"
+            except LabellingError:
+                row[key] = "labelling"
+            except Exception:  # noqa: recorded, the obligation fails
+                row[key] = "otherError"
+        try:
+            run, x, holder = probe_input(kind, n)
+            before = digest(x)
+            plain, _ = run(f, False)
+            if kind == "group":
+                keys = [k for k in holder.landmarks.group_labels if k != "src"]
+                wrote = keys[0] if len(keys) == 1 else "?"
+                withm = plain
+                mp_labels = labels_of(plain, None) if hasattr(plain, "_labels_to_masks") else None
+                untouched = digest(holder.landmarks["src"]) == before and holder.landmarks["src"] is x
+            else:
+                withm, mp = run(f, True)
+                mp_labels = labels_of(None, mp)
+                untouched = digest(x) == before
+            row["cls"], row["clsWithMapping"] = cls_of(plain), cls_of(withm)
+            row["mapping"] = None if mp_labels is None else intern(mappings, mp_labels)
+            import numpy as np
+            row["ind"] = intern(inds, decode_ind(np.asarray(plain.points), n))
+            row["edges"] = intern(edge_sets, undirected_edges(plain))
+            row["sameResult"] = digest(plain) == digest(withm) and type(plain) is type(withm)
+            row["inputUntouched"] = bool(untouched)
+        except Exception as e:  # noqa: a labeller that refuses its own size for one kind: recorded, the obligation fails
+            row.update(cls="other", clsWithMapping="other", mapping=None, ind=len(inds), edges=len(edge_sets),
+                       sameResult=False, inputUntouched=False, error=type(e).__name__)
+        rows.append(row)
+    return dict(name=name, groupLabel=f.group_label, wroteKey=wrote, mappings=mappings, inds=inds, edgeSets=edge_sets,
+                rows=rows)
+
+
+def resolutions(idx):
+    fs = live_labellers()
+    return [resolution_of(n, fs[n], t) for n, _, t in idx]
+
+
 def _lean_str(s):
     return '"' + s.replace("\\", "\\\\").replace('"', '\\"') + '"'
 
@@ -109,10 +233,48 @@ def _ident(n):
     return n if n.isidentifier() else "«" + n + "»"
 
 
-def lean_files(idx=None, bbox=None):
+def _lean_list(xs):
+    return "[" + ", ".join(xs) + "]"
+
+
+def _lean_labels(labels):
+    return _lean_list("(%s, [%s])" % (_lean_str(l), ", ".join(map(str, ix))) for l, ix in labels)
+
+
+def _lean_bool(b):
+    return "true" if b else "false"
+
+
+def _res_entry(r):
+    rows = []
+    for row in r["rows"]:
+        rows.append("{ kind := .%s, small := .%s, large := .%s, cls := .%s, clsWithMapping := .%s, mapping := %s, "
+                    "ind := %d, edges := %d, sameResult := %s, inputUntouched := %s }"
+                    % (row["kind"], row["small"], row["large"], row["cls"], row["clsWithMapping"],
+                       "none" if row["mapping"] is None else "some %d" % row["mapping"], row["ind"], row["edges"],
+                       _lean_bool(row["sameResult"]), _lean_bool(row["inputUntouched"])))
+    return ("  { name := %s, groupLabel := %s, wroteKey := %s,\n    mappings := %s,\n    inds := %s,\n    edgeSets := %s,\n"
+            "    rows := [%s] }"
+            % (_lean_str(r["name"]), _lean_str(r["groupLabel"]), _lean_str(r["wroteKey"]),
+               _lean_list(_lean_labels(m) for m in r["mappings"]),
+               _lean_list(_lean_list(map(str, i)) for i in r["inds"]),
+               _lean_list(_lean_list("(%d, %d)" % tuple(e) for e in es) for es in r["edgeSets"]),
+               ",\n             ".join(rows)))
+
+
+def lean_files(idx=None, bbox=None, res=None, sites=None, scan=None, guard=None):
+    from . import scan_c15
+    if guard is None:
+        guard = scan_c15.validate_guard()
     if idx is None:
         idx, bbox = tables()
-    defs, alls, obls, comments = [], [], [], []
+    if res is None:
+        res = resolutions(idx)
+    if sites is None:
+        sites = scan_c15.set_sites()
+    if scan is None:
+        scan = scan_c15.labeller_scan()
+    defs, alls, obls, comments, fdefs, funcs, rdefs, ress, robls = [], [], [], [], [], [], [], [], []
     for n, gl, t in idx:
         labels = ", ".join("(%s, [%s])" % (_lean_str(l), ", ".join(map(str, ix))) for l, ix in t["labels"])
         edges = ", ".join("(%d, %d)" % e for e in t["edges"])
@@ -121,31 +283,94 @@ def lean_files(idx=None, bbox=None):
                     % (n, _lean_str(gl), t["kind"], t["accepts"], _ident(n), t["n"], ", ".join(map(str, t["ind"])),
                        labels, edges))
         alls.append("(%s, %s)" % (_lean_str(n), _ident(n)))
+        fdefs.append("def %s : LabFunc := { name := %s, groupLabel := %s, cls := .%s, table := %s }\n"
+                     % (_ident("f_" + n), _lean_str(n), _lean_str(gl), CLS.get(t["kind"], "other"), _ident(n)))
+        funcs.append(_ident("f_" + n))
         obls.append("theorem %s : labellerWF Generated.%s = true := by decide +kernel\n" % (_ident("wf_" + n), _ident(n)))
         if t["kind"] == GRAPH_KIND:
             obls.append("theorem %s : labellerEdgesWF Generated.%s = true := by decide +kernel\n"
                         % (_ident("edges_" + n), _ident(n)))
+    for r in res:
+        rdefs.append("def %s : ResEntry :=\n%s\n" % (_ident("res_" + r["name"]), _res_entry(r)))
+        ress.append(_ident("res_" + r["name"]))
+        robls.append("theorem %s : Generated.%s = expectedEntry Generated.%s := by decide +kernel\n"
+                     % (_ident("res_" + r["name"]), _ident("res_" + r["name"]), _ident("f_" + r["name"])))
     for n, gl in bbox or []:
         comments.append("--   %s -> group %s (constructs new corner points; outside the re-indexing clause)" % (n, gl))
     gen = ("/- REGENERATED by harness/extract_c15.py by probing every labeller of the live menpo.landmark module on\n"
            "   every run of `./check C15`; do not edit. -/\n"
-           "import MenpoModel.Core.C15\n\n"
+           "import MenpoModel.Core.C15Entry\n\n"
            "namespace MenpoModel.C15.Generated\nopen MenpoModel.C15\n\n"
            + "\n".join(defs) + "\n"
            "/-- every index-based labeller menpo.landmark exports, by function name -/\n"
            "def all : List (String × Labeller) :=\n  [" + ",\n   ".join(alls) + "]\n\n"
+           "/- the same functions as `labeller_func` wraps them: exported name, `group_label`, class of the result -/\n"
+           + "".join(fdefs) + "\n"
+           "def funcs : List LabFunc :=\n  [" + ",\n   ".join(funcs) + "]\n\n"
            "-- not tabulated:\n" + "\n".join(comments) + "\n\n"
            "end MenpoModel.C15.Generated\n")
-    props = ("/- Obligations over the regenerated labeller tables (written by harness/extract_c15.py: one per labeller the\n"
-             "   live module exports).  With `labeller_reindexes`, `labeller_all_labelled`, `labeller_commutes`,\n"
-             "   `labeller_size` of Props/C15.lean each `wf_` obligation makes those theorems statements about that\n"
-             "   labeller as it is coded now; the `edges_` obligations (labellers returning a labelled graph) feed\n"
-             "   `labeller_output_wf`. -/\n"
-             "import MenpoModel.Generated.C15Labellers\nimport MenpoModel.Props.C15\n\n"
+    resf = ("/- REGENERATED by harness/extract_c15.py on every run of `./check C15`; do not edit.\n"
+            "   The resolution table: what every index-based labeller of the live menpo.landmark module does per input kind\n"
+            "   (ndarray / PointCloud / LabelledPointUndirectedGraph / a LandmarkManager group through `labeller()`):\n"
+            "   what inputs of n-1 and n+1 points meet, the class of the result without and with `return_mapping`, which\n"
+            "   mapping / index list / connectivity comes back, whether both options return the same object and whether the\n"
+            "   input is bit-identical afterwards; for `labeller()` the key it wrote. -/\n"
+            "import MenpoModel.Core.C15Entry\n\n"
+            "namespace MenpoModel.C15.Generated\nopen MenpoModel.C15\n\n"
+            + "\n".join(rdefs) + "\n"
+            "def resolution : List ResEntry :=\n  [" + ",\n   ".join(ress) + "]\n\n"
+            "end MenpoModel.C15.Generated\n")
+    vs = scan_c15.validated_sizes(scan)
+    site_rows = ["  { file := %s, fn := %s, expr := %s, uses := %s }"
+                 % (_lean_str(f), _lean_str(fn), _lean_str(e), _lean_list(_lean_str(u) for u in us))
+                 for f, fn, e, us in sites]
+    scan_rows = ["  { name := %s, file := %s, isLabeller := %s, uses := %s, sizes := %s, delegates := %s }"
+                 % (_lean_str(r[0]), _lean_str(r[1]), _lean_bool(r[2]), _lean_list(_lean_str(u) for u in r[4]),
+                    _lean_list(map(str, vs[r[0]])), _lean_list(_lean_str(d) for d in r[6]))
+                 for r in scan]
+    scanf = ("/- REGENERATED by harness/scan_c15.py (ast walk of menpo/shape/labelled.py and menpo/landmark/labels/**/*.py of the\n"
+             "   current tree) on every run of `./check C15`; do not edit. -/\n"
+             "import MenpoModel.Core.C15Entry\n\n"
+             "namespace MenpoModel.C15.Generated\nopen MenpoModel.C15\n\n"
+             "/-- every expression that builds a `set`, with the ways its value is used -/\n"
+             "def setSites : List SetSite :=\n  [" + ",\n   ".join(r.strip() for r in site_rows) + "]\n\n"
+             "/-- what every `labeller_func` function (and every helper one delegates to) does with its point cloud -/\n"
+             "def labScan : List LabScan :=\n  [" + ",\n   ".join(r.strip() for r in scan_rows) + "]\n\n"
+             "/-- the condition under which `validate_input` raises `LabellingError` -/\n"
+             "def validateGuard : List String := " + _lean_list(_lean_str(g) for g in guard) + "\n\n"
+             "end MenpoModel.C15.Generated\n")
+    props = ("/- Obligations over the regenerated tables (written by harness/extract_c15.py).\n"
+             "   * `wf_` / `edges_`: one per labeller the live module exports.  With `labeller_reindexes`,\n"
+             "     `labeller_all_labelled`, `labeller_commutes`, `labeller_size`, `labeller_masks`, `labeller_label_points`,\n"
+             "     `labeller_edges` of Props/C15*.lean each makes those theorems statements about that labeller as it is coded\n"
+             "     now; the `edges_` obligations (labellers returning a labelled graph) feed `labeller_output_wf`.\n"
+             "   * `res_`: the resolution row of every labeller (what it does per input kind and per `return_mapping`, probed on\n"
+             "     the live function) equals what the model (`LabFunc.call`, `relabel`) computes for it.\n"
+             "   * `orderSites_ok`, `labScan_ok`: the source scans (no set-iteration order reaches an output; no labeller looks at\n"
+             "     a coordinate, each validates exactly the size of its table). -/\n"
+             "import MenpoModel.Generated.C15Labellers\nimport MenpoModel.Generated.C15Resolution\n"
+             "import MenpoModel.Generated.C15Scan\nimport MenpoModel.Props.C15\n\n"
              "namespace MenpoModel.C15.GenProps\nopen MenpoModel.C15\n\n"
-             + "".join(obls) + "\n"
+             + "".join(obls) + "\n" + "".join(robls) + "\n"
              "/-- all of them at once, in the form the property theorems consume -/\n"
-             "theorem all_wf : ∀ p ∈ Generated.all, labellerWF p.2 = true := by decide +kernel\n\n"
+             "theorem all_wf : ∀ p ∈ Generated.all, labellerWF p.2 = true := by\n"
+             "  intro p hp\n"
+             "  simp only [Generated.all, List.mem_cons, List.not_mem_nil, or_false] at hp\n"
+             "  rcases hp with " + " | ".join("rfl" for _ in idx) + "\n"
+             + "".join("  · exact %s\n" % _ident("wf_" + n) for n, _, _ in idx) + "\n"
+             "/-- `funcs` wraps exactly the tabulated labellers, in the same order -/\n"
+             "theorem funcs_all : Generated.funcs.map (fun f => (f.name, f.table)) = Generated.all := by decide +kernel\n\n"
+             "theorem funcs_cls : ∀ f ∈ Generated.funcs, f.cls ≠ .other := by decide +kernel\n\n"
+             "/-- the resolution table as a whole is the model's -/\n"
+             "theorem resolution_ok : Generated.resolution = Generated.funcs.map expectedEntry := by\n"
+             "  simp only [Generated.resolution, Generated.funcs, List.map_cons, List.map_nil, "
+             + ", ".join(_ident("res_" + r["name"]) for r in res) + "]\n\n"
+             "/-- the only set whose iteration order the anchored code observes is the whitelisted one (inside a `raise`) -/\n"
+             "theorem orderSites_ok : orderSitesOf Generated.setSites = expectedOrderSites := by decide +kernel\n\n"
+             "/-- `validate_input` refuses exactly the inputs whose number of points differs from the expected one -/\n"
+             "theorem validateGuard_ok : Generated.validateGuard = expectedValidateGuard := by decide\n\n"
+             "/-- no labelling function can look at a coordinate; each validates exactly the size of its table -/\n"
+             "theorem labScan_ok : labScanOK Generated.labScan Generated.funcs = true := by decide +kernel\n\n"
              "/-- the labeller clause of the property for every index-based labeller the live module exports: wrong sizes\n"
              "are rejected, the labeller commutes with every map of the points, output point `j` is input point `ind[j]`\n"
              "(all distinct), every output point is labelled -/\n"
@@ -158,19 +383,78 @@ def lean_files(idx=None, bbox=None):
              "  fun p hp xs => ⟨(labeller_size p.2 xs).1, fun f => labeller_commutes p.2 f xs, fun g h =>\n"
              "    have r := labeller_reindexes p.2 (all_wf p hp) xs g h\n"
              "    ⟨r.1, r.2.1, r.2.2, (labeller_all_labelled p.2 (all_wf p hp) xs g h).1⟩⟩\n\n"
+             "/-- **the gather theorem instantiated for every regenerated table**: on every input the labelled result of every\n"
+             "live labeller carries the labels of its table in the table's order, the mask of each label is true exactly at\n"
+             "the output positions the table lists, the points under the label are the input points `ind[j]`, `j` in the\n"
+             "label's list, and the connectivity is the table's -/\n"
+             "theorem live_labellers_masks {α : Type} : ∀ p ∈ Generated.all, ∀ (xs : List α) (g : LGraph α),\n"
+             "    p.2.apply xs = .ok g →\n"
+             "    g.names = p.2.labels.map Prod.fst ∧ g.edges = p.2.edges ∧\n"
+             "    ∀ l ix, (l, ix) ∈ p.2.labels →\n"
+             "      lookup g.labels l = some (indexMask p.2.ind.length ix) ∧\n"
+             "      (∀ j, (indexMask p.2.ind.length ix)[j]? = some true ↔ j < g.pts.length ∧ j ∈ ix) ∧\n"
+             "      (∀ j ∈ ix, j < p.2.ind.length ∧\n"
+             "        (maskFilter g.pts (indexMask p.2.ind.length ix))[rank (indexMask p.2.ind.length ix) j]? =\n"
+             "          xs[p.2.ind[j]!]?) ∧\n"
+             "      (∀ k, k < (maskFilter g.pts (indexMask p.2.ind.length ix)).length →\n"
+             "        ∃ j ∈ ix, rank (indexMask p.2.ind.length ix) j = k) :=\n"
+             "  fun p hp xs g h =>\n"
+             "    have m := labeller_masks p.2 (all_wf p hp) xs g h\n"
+             "    ⟨m.1, (labeller_apply_ok h).2.2.1, fun l ix hm =>\n"
+             "      have q := labeller_label_points p.2 (all_wf p hp) xs g h l ix hm\n"
+             "      ⟨(m.2 l ix hm).1, (m.2 l ix hm).2, q.1, q.2⟩⟩\n\n"
+             "/-- the label index lists of every table are strictly increasing -/\n"
+             "theorem all_sorted : ∀ p ∈ Generated.all, labelsSortedB p.2 = true := by decide +kernel\n\n"
+             "/-- **the gather form, for every live labeller and every one of its labels**: on every input the points under\n"
+             "label `l` are the input points gathered through `ix.map ind` -/\n"
+             "theorem live_labellers_gather {α : Type} : ∀ p ∈ Generated.all, ∀ (xs : List α) (g : LGraph α),\n"
+             "    p.2.apply xs = .ok g → ∀ l ix, (l, ix) ∈ p.2.labels →\n"
+             "      maskFilter g.pts (indexMask p.2.ind.length ix) = gather xs (ix.map (p.2.ind[·]!)) :=\n"
+             "  fun p hp xs g h l ix hm =>\n"
+             "    (labeller_get_label_gather p.2 (all_wf p hp) (all_sorted p hp) xs g h l ix hm).1\n\n"
+             "/-- every live labelling function, through `labeller_func`'s wrapper and through `labeller()`: whatever kind of\n"
+             "input carries the points the result is the same; a wrong size is a `LabellingError`; `labeller()` on a\n"
+             "well-formed manager raises only for a missing group / an ambiguous `None` / a wrong size, and when it succeeds\n"
+             "it changes exactly the key `group_label` -/\n"
+             "theorem live_entry {α : Type} : ∀ f ∈ Generated.funcs,\n"
+             "    labellerWF f.table = true ∧\n"
+             "    (∀ (x y : LabIn α) rm, x.pts = y.pts → f.call x rm = f.call y rm) ∧\n"
+             "    (∀ (x : LabIn α) rm, x.pts.length ≠ f.table.nExpected → f.call x rm = .error .labelling) ∧\n"
+             "    (∀ (m m' : Manager α) grp, relabel m grp f = .ok m' →\n"
+             "      (∀ k, k ≠ f.groupLabel → m'.get k = m.get k) ∧\n"
+             "      m'.keys = (if f.groupLabel ∈ m.keys then m.keys else m.keys ++ [f.groupLabel])) ∧\n"
+             "    (∀ (m : Manager α), ManagerWF m → ∀ grp e, relabel m grp f = .error e ↔\n"
+             "      (m.getItem grp = .error e) ∨\n"
+             "      (∃ s, m.getItem grp = .ok s ∧ s.g.pts.length ≠ f.table.nExpected ∧ e = .labelling)) :=\n"
+             "  fun f hf =>\n"
+             "    have hw : labellerWF f.table = true := by\n"
+             "      have : (f.name, f.table) ∈ Generated.all := by\n"
+             "        rw [← funcs_all]; exact List.mem_map.mpr ⟨f, hf, rfl⟩\n"
+             "      exact all_wf _ this\n"
+             "    ⟨hw, fun x y rm h => call_kind_independent f x y rm h, fun x rm h => (call_spec f x rm).1 h,\n"
+             "     fun m m' grp h => by\n"
+             "       obtain ⟨_, _, _, _, _, _, hk, hkeys⟩ := relabel_spec h\n"
+             "       exact ⟨hk, hkeys⟩,\n"
+             "     fun m hm grp e => relabel_error_iff m hm grp f (funcs_cls f hf) e⟩\n\n"
              "end MenpoModel.C15.GenProps\n")
-    return {"MenpoModel/Generated/C15Labellers.lean": gen, "MenpoModel/GenProps/C15.lean": props}
+    return {"MenpoModel/Generated/C15Labellers.lean": gen, "MenpoModel/Generated/C15Resolution.lean": resf,
+            "MenpoModel/Generated/C15Scan.lean": scanf, "MenpoModel/GenProps/C15.lean": props}
 
 
 def obligation_names(idx):
     """one `labellerWF` obligation per labeller (the property's clauses), one `labellerEdgesWF` obligation per
-    labeller that returns a labelled graph (so that the selection theorems apply to its output), and `all_wf`"""
+    labeller that returns a labelled graph (so that the selection theorems apply to its output), one resolution
+    obligation per labeller, the two scan obligations, and the theorems that consume them for all live labellers"""
     out = []
     for n, _, t in idx:
         out.append("MenpoModel.C15.GenProps.wf_" + n)
         if t["kind"] == GRAPH_KIND:
             out.append("MenpoModel.C15.GenProps.edges_" + n)
-    return out + ["MenpoModel.C15.GenProps.all_wf", "MenpoModel.C15.GenProps.live_labellers"]
+    for n, _, t in idx:
+        out.append("MenpoModel.C15.GenProps.res_" + n)
+    return out + ["MenpoModel.C15.GenProps." + x for x in
+                  ("all_wf", "funcs_all", "funcs_cls", "resolution_ok", "orderSites_ok", "validateGuard_ok", "labScan_ok", "live_labellers",
+                   "live_labellers_masks", "all_sorted", "live_labellers_gather", "live_entry")]
 
 
 def edges_out_of_range(idx):
